@@ -798,4 +798,169 @@ Proof.
     eexists. split; [reflexivity|]. split; reflexivity.
 Qed.
 
+
+(* ==================================================================================== *)
+(* 9. the type rule on the non-elementwise paths: the operation's (Ne, nPg) is the NUMPY  *)
+(*    BROADCAST of the FeArray operands' finite element axes -- (Ne,1) against (1,nPg)    *)
+(*    gives (Ne,nPg), equal to neither operand's -- and the result is a FeArray exactly   *)
+(*    because it comes out on those axes                                                  *)
+(* ==================================================================================== *)
+Definition fe_lead (y : operand V) : list nat :=
+  match y with OFe _ b => firstn 2 (shape b) | _ => [] end.
+
+Lemma wrap_on_batch (ops : list (operand V)) (r : arr) bs X :
+  fe_shape_of V ops = Some bs -> length bs = 2 -> shape r = bs ++ X ->
+  existsb (is_fe V) ops = true -> wrap V ops r = RFe V r.
+Proof.
+  intros H1 H2 H3 H4. unfold wrap. rewrite H1, H4. unfold wrap_is_fe.
+  rewrite H3, app_length, H2, firstn_app_exact by (symmetry; exact H2).
+  rewrite list_eqb_refl. reflexivity.
+Qed.
+
+Lemma fe_shape_pair (a : arr) Ne nPg s1 y s2 :
+  shape a = Ne :: nPg :: s1 -> holds y s2 ->
+  fe_shape_of V [OFe V a; y] = np_bcast [Ne; nPg] (fe_lead y).
+Proof.
+  intros Hs [[c [-> H]]|[b [Ne' [nPg' [-> H]]]]]; unfold fe_shape_of, fe_shape;
+    cbn [map filter oks okind fst snd np_bcast_all fe_lead]; unfold oshape; cbn [oarr]; rewrite Hs; cbn [firstn].
+  - reflexivity.
+  - rewrite H. cbn [firstn]. rewrite np_bcast_nil_r. reflexivity.
+Qed.
+
+Lemma batch_pair l1 l2 (a : arr) Ne nPg s1 y s2 :
+  shape a = Ne :: nPg :: s1 -> holds y s2 -> length l1 = length s1 -> length l2 = length s2 ->
+  np_bcast_all (map (fun la : list nat * arr => batch_of V (fst la) (snd la)) [(l1, a); (l2, oarr V y)])
+  = np_bcast [Ne; nPg] (fe_lead y).
+Proof.
+  intros Hs Hy L1 L2. cbn [map fst snd np_bcast_all]. unfold batch_of. rewrite Hs. cbn [length].
+  replace (S (S (length s1)) - length l1) with 2 by lia. cbn [firstn].
+  destruct Hy as [[c [-> H]]|[b [Ne' [nPg' [-> H]]]]]; cbn [oarr fe_lead]; rewrite H.
+  - rewrite L2, Nat.sub_diag. cbn [firstn]. rewrite np_bcast_nil_r. reflexivity.
+  - cbn [length]. replace (S (S (length s2)) - length l2) with 2 by lia. cbn [firstn].
+    rewrite np_bcast_nil_r. reflexivity.
+Qed.
+
+(* einsum (strict = false) and the matrix-matrix np.matmul gufunc (strict = true) *)
+Theorem einsum2_is_fe strict l1 l2 lo (a : arr) Ne nPg s1 y s2 r :
+  shape a = Ne :: nPg :: s1 -> holds y s2 -> length l1 = length s1 -> length l2 = length s2 ->
+  einsum strict [(l1, a); (l2, oarr V y)] lo = Some r ->
+  exists fs, np_bcast [Ne; nPg] (fe_lead y) = Some fs /\
+             fe_shape_of V [OFe V a; y] = Some fs /\
+             firstn 2 (shape r) = fs /\
+             wrap V [OFe V a; y] r = RFe V r.
+Proof.
+  intros Hs Hy L1 L2 H. unfold C12_FeTensor.einsum in H.
+  destruct (forallb _ _); [|discriminate]. destruct (forallb _ _); [|discriminate].
+  rewrite (batch_pair l1 l2 a Ne nPg s1 y s2 Hs Hy L1 L2) in H.
+  destruct (np_bcast [Ne; nPg] (fe_lead y)) as [fs|] eqn:B; [|discriminate].
+  inversion H; subst r; clear H. cbn [C12_FeTensor.shape].
+  assert (Lf : length fs = 2).
+  { apply np_bcast_length in B. rewrite B.
+    destruct Hy as [[c [-> Hc]]|[b [Ne' [nPg' [-> Hb]]]]]; cbn [fe_lead]; [reflexivity|].
+    rewrite Hb. reflexivity. }
+  exists fs. split; [reflexivity|]. split; [rewrite (fe_shape_pair a Ne nPg s1 y s2 Hs Hy); exact B|].
+  split; [apply firstn_app_exact; symmetry; exact Lf|].
+  eapply wrap_on_batch; [rewrite (fe_shape_pair a Ne nPg s1 y s2 Hs Hy); exact B | exact Lf | reflexivity | reflexivity].
+Qed.
+
+(* np.where with three fields of the same tensor rank: plain numpy broadcasting of the full
+   shapes splits into (broadcast of the finite element axes) ++ (broadcast of the tensor axes),
+   and the result is a FeArray on the broadcast finite element axes *)
+Lemma np_bcast_split l1 l2 s1 s2 : length l1 = length l2 -> length s1 = length s2 ->
+  np_bcast (l1 ++ s1) (l2 ++ s2) =
+  match np_bcast l1 l2, np_bcast s1 s2 with Some l, Some u => Some (l ++ u) | _, _ => None end.
+Proof.
+  intros Hl Hs. unfold np_bcast. rewrite !app_length, Hl, Hs, !Nat.max_id.
+  rewrite !lpad_id by (rewrite ?app_length; lia). apply zip_bcast_app. exact Hl.
+Qed.
+
+Theorem where_is_fe (c x y : arr) l1 l2 l3 s1 s2 s3 l12 l u12 u :
+  shape c = l1 ++ s1 -> shape x = l2 ++ s2 -> shape y = l3 ++ s3 ->
+  length l1 = 2 -> length l2 = 2 -> length l3 = 2 -> length s1 = length s2 -> length s2 = length s3 ->
+  np_bcast l2 l3 = Some l12 -> np_bcast l1 l12 = Some l ->
+  np_bcast s2 s3 = Some u12 -> np_bcast s1 u12 = Some u ->
+  exists r, fe_where V vnonzero (OFe V c) (OFe V x) (OFe V y) = RFe V r /\ shape r = l ++ u.
+Proof.
+  intros Hc Hx Hy L1 L2 L3 S12 S23 B23 B1 U23 U1.
+  assert (Ll12 : length l12 = 2) by (apply np_bcast_length in B23; lia).
+  assert (Lu12 : length u12 = length s1) by (apply np_bcast_length in U23; lia).
+  assert (Ll : length l = 2) by (apply np_bcast_length in B1; lia).
+  unfold fe_where, ew3. cbn [oarr np_bcast_all]. rewrite Hc, Hx, Hy.
+  rewrite np_bcast_nil_r, (np_bcast_split l2 l3 s2 s3) by lia. rewrite B23, U23.
+  rewrite (np_bcast_split l1 l12 s1 u12) by lia. rewrite B1, U1.
+  eexists. split.
+  - apply wrap_on_batch with (bs := l) (X := u); [|exact Ll|reflexivity|reflexivity].
+    unfold fe_shape_of, fe_shape. cbn [map filter oks okind fst snd np_bcast_all]. unfold oshape. cbn [oarr].
+    rewrite Hc, Hx, Hy, !firstn_app_exact by (symmetry; assumption).
+    rewrite np_bcast_nil_r, B23. exact B1.
+  - reflexivity.
+Qed.
+
+
+(* consequence for the FeArray methods: x @ y, x.dot(y), x.ddot(y) never come back as a plain
+   array; when they succeed the result is a FeArray whose leading axes are the numpy broadcast
+   of the operands' finite element axes (so (Ne,1) @ (1,nPg) is a FeArray on (Ne,nPg)) *)
+Definition fe_typed (Ne nPg : nat) (y : operand V) (res : result V) : Prop :=
+  match res with
+  | RFe _ r => np_bcast [Ne; nPg] (fe_lead y) = Some (firstn 2 (shape r))
+  | RErr _ _ => True
+  | _ => False
+  end.
+
+Lemma fe_einsum2_type l1 l2 lo (a : arr) Ne nPg s1 y s2 :
+  shape a = Ne :: nPg :: s1 -> holds y s2 -> length l1 = length s1 -> length l2 = length s2 ->
+  fe_typed Ne nPg y (as_fe V (fe_einsum V vzero vone vadd vmul [(l1, OFe V a); (l2, y)] lo)).
+Proof.
+  intros Hs Hy L1 L2. unfold fe_einsum. cbn [map fst snd oarr].
+  destruct (einsum false [(l1, a); (l2, oarr V y)] lo) as [r|] eqn:E; [|exact I].
+  destruct (einsum2_is_fe false l1 l2 lo a Ne nPg s1 y s2 r Hs Hy L1 L2 E) as [fs [B [_ [F W]]]].
+  rewrite W. cbn [as_fe fe_typed]. rewrite F. exact B.
+Qed.
+
+Theorem dot_type (a : arr) Ne nPg s1 y s2 :
+  shape a = Ne :: nPg :: s1 -> holds y s2 -> In (length s1) [1; 2; 4] -> In (length s2) [1; 2; 4] ->
+  fe_typed Ne nPg y (fe_dot V vzero vone vadd vmul (OFe V a) y).
+Proof.
+  intros Hs Hy R1 R2. unfold fe_dot. destruct (holds_rank y s2 Hy) as [Hr _].
+  rewrite (orank_fe a Ne nPg s1 Hs), Hr.
+  destruct (length s1 =? 0); [exact I|]. destruct (length s2 =? 0); [exact I|].
+  destruct (dot_labels (length s1) (length s2)) as [[[l1 l2] lo]|] eqn:D; [|exact I].
+  destruct (dot_labels_lengths _ _ _ _ _ R1 R2 D) as [L1 [L2 _]].
+  apply (fe_einsum2_type l1 l2 lo a Ne nPg s1 y s2 Hs Hy L1 L2).
+Qed.
+
+Theorem ddot_type (a : arr) Ne nPg s1 y s2 :
+  shape a = Ne :: nPg :: s1 -> holds y s2 -> In (length s1) [2; 4] -> In (length s2) [2; 4] ->
+  fe_typed Ne nPg y (fe_ddot V vzero vone vadd vmul (OFe V a) y).
+Proof.
+  intros Hs Hy R1 R2. unfold fe_ddot. destruct (holds_rank y s2 Hy) as [Hr _].
+  rewrite (orank_fe a Ne nPg s1 Hs), Hr.
+  destruct (length s1 <? 2); [exact I|]. destruct (length s2 <? 2); [exact I|].
+  destruct (ddot_labels (length s1) (length s2)) as [[[l1 l2] lo]|] eqn:D; [|exact I].
+  destruct (ddot_labels_lengths _ _ _ _ _ R1 R2 D) as [L1 [L2 _]].
+  apply (fe_einsum2_type l1 l2 lo a Ne nPg s1 y s2 Hs Hy L1 L2).
+Qed.
+
+Theorem matmul_type (a : arr) Ne nPg s1 y s2 :
+  shape a = Ne :: nPg :: s1 -> holds y s2 -> In (length s1) [1; 2; 4] -> In (length s2) [1; 2; 4] ->
+  fe_typed Ne nPg y (fe_matmul V vzero vone vadd vmul (OFe V a) y).
+Proof.
+  intros Hs Hy R1 R2. unfold fe_matmul. destruct (holds_rank y s2 Hy) as [Hr _].
+  rewrite (orank_fe a Ne nPg s1 Hs), Hr. unfold matmul_branch.
+  destruct ((length s1 =? 1) && (length s2 =? 1)); [exact (dot_type a Ne nPg s1 y s2 Hs Hy R1 R2)|].
+  destruct ((length s1 =? 2) && (length s2 =? 2)) eqn:B2.
+  { apply andb_true_iff in B2. destruct B2 as [A1 A2]. apply Nat.eqb_eq in A1, A2. cbn [oarr].
+    destruct (einsum true [([0; 1], a); ([1; 2], oarr V y)] [0; 2]) as [r|] eqn:E; [|exact I].
+    destruct (einsum2_is_fe true [0; 1] [1; 2] [0; 2] a Ne nPg s1 y s2 r Hs Hy) as [fs [B [_ [F W]]]];
+      [simpl; lia | simpl; lia | exact E |].
+    rewrite W. cbn [fe_typed]. rewrite F. exact B. }
+  destruct ((length s1 =? 1) && (length s2 =? 2)) eqn:B3.
+  { apply andb_true_iff in B3. destruct B3 as [A1 A2]. apply Nat.eqb_eq in A1, A2.
+    apply (fe_einsum2_type [0] [0; 1] [1] a Ne nPg s1 y s2 Hs Hy); simpl; lia. }
+  destruct ((length s1 =? 2) && (length s2 =? 1)) eqn:B4.
+  { apply andb_true_iff in B4. destruct B4 as [A1 A2]. apply Nat.eqb_eq in A1, A2.
+    apply (fe_einsum2_type [0; 1] [1] [0] a Ne nPg s1 y s2 Hs Hy); simpl; lia. }
+  exact (dot_type a Ne nPg s1 y s2 Hs Hy R1 R2).
+Qed.
+
 End Values.
